@@ -295,7 +295,7 @@ def a_loglik_sparse(C):
 
 
 def a_loglik_dense(C):
-    R = C.region("tt_loglikelihood")
+    C.region("tt_loglikelihood")
     F = C.F
     data, model = C.params("tt_loglikelihood")[:2]
     _, other = _loglik_returns(C)
@@ -356,7 +356,6 @@ def _kkt_chain(C, fname):
     """The entries `<kkt per mode>[n] = <value>` whose array reaches `kktViolations` of the returned dictionary.
     -> (main loop region, [effect entries])"""
     R = C.region(fname)
-    F = C.F
     ds = {text(d): d for d in flow.find_dict_with(R, ["kktViolations"])}
     d = one(ds.values(), f"kkt[{fname}]: returned dictionary with \"kktViolations\"")
     kv = _root_base(flow.dict_get(d, "kktViolations"))
